@@ -338,7 +338,8 @@ func execHealth(op []string) string {
 // ---------------------------------------------------------------- generator
 
 func genHealth(c *hx.Ctx) {
-	r := c.Rng
+	// see genStored: decorrelate consecutive seeds
+	r := c.Rng.Fork()
 	n := c.N
 	for i := 0; i < n; i++ {
 		// shadow of which paths are occupied, to keep most transactions valid
